@@ -282,7 +282,10 @@ impl BitvectorExtended for Bitvector {
             ))
         } else {
             let result = self.clone().into_checked_mul(rhs).unwrap();
-            if result.clone().into_checked_sdiv(self).unwrap() != *rhs {
+            // `-1 * MIN` overflows, but the division check does not detect it, since `MIN sdiv -1` overflows, too.
+            let is_minus_one_times_min = *self == -Bitvector::one(self.width())
+                && *rhs == Bitvector::signed_min_value(self.width());
+            if is_minus_one_times_min || result.clone().into_checked_sdiv(self).unwrap() != *rhs {
                 Ok((result, true))
             } else {
                 Ok((result, false))
